@@ -52,7 +52,7 @@ impl Fixture {
     }
 
     pub fn config(&self, keep: usize) -> Config {
-        self.env.config(&[], &["--history".into(), keep.to_string()]).expect("config")
+        self.env.config(&[], &["--enable-bgpsec".into(), "--history".into(), keep.to_string()]).expect("config")
     }
 }
 
@@ -393,5 +393,61 @@ impl sched::Chooser for Bounded<'_> {
         self.last = Some(enabled[i].0);
         self.taken.push(i as u8);
         i
+    }
+}
+
+//------------------------------------------------------------------------------------------
+// Locating the installs independently of the updater's step order
+
+/// Observer for `sched::run`'s `on_step` (all participants parked): records at which trace position
+/// the served snapshot object was replaced (`update`'s installing write) and at which position the
+/// completion time changed (`mark_update_done`). Only the *position* of these events is taken
+/// from the implementation's state; what must be served afterwards comes from the model.
+pub struct Watch {
+    history: SharedHistory,
+    last_ptr: usize,
+    last_done: Option<chrono::DateTime<chrono::Utc>>,
+    pub installs: Vec<usize>,
+    pub mark_dones: Vec<usize>,
+}
+
+impl Watch {
+    pub fn new(history: &SharedHistory) -> Watch {
+        let (last_ptr, last_done) = Self::peek(history);
+        Watch { history: history.clone(), last_ptr, last_done, installs: Vec::new(), mark_dones: Vec::new() }
+    }
+
+    fn peek(history: &SharedHistory) -> (usize, Option<chrono::DateTime<chrono::Utc>>) {
+        let h = history.read();
+        (h.current().map(|a| Arc::as_ptr(&a) as usize).unwrap_or(0), h.last_update_done())
+    }
+
+    pub fn on_step(&mut self, trace: &[Event]) {
+        let (ptr, done) = Self::peek(&self.history);
+        let pos = trace.iter().rposition(|e| matches!(e, Event::Step { .. })).unwrap_or(0);
+        if ptr != self.last_ptr {
+            self.last_ptr = ptr;
+            self.installs.push(pos);
+        }
+        if done != self.last_done {
+            self.last_done = done;
+            self.mark_dones.push(pos);
+        }
+    }
+
+    /// Puts the observed positions into the per-call records (k-th install = k-th call). False if
+    /// the numbers do not match.
+    pub fn apply(&self, ups: &mut [UpdPos]) -> bool {
+        if self.installs.len() != ups.len() || self.mark_dones.len() != ups.len() {
+            return false;
+        }
+        for (i, u) in ups.iter_mut().enumerate() {
+            u.install = Some(self.installs[i]);
+            u.mark_done = Some(self.mark_dones[i]);
+            if !(u.begin < self.installs[i] && u.end.map(|e| self.installs[i] < e).unwrap_or(true)) {
+                return false;
+            }
+        }
+        true
     }
 }
